@@ -36,6 +36,9 @@ var (
 	errMalformedEncoding = errors.New("malformed chunk encoding")
 )
 
+// maxChunkPieceSize bounds how much of one chunk is buffered at a time
+const maxChunkPieceSize = 1 << 20
+
 type UnsignedChunkReader struct {
 	reader           *bufio.Reader
 	checksumType     checksumType
@@ -44,6 +47,8 @@ type UnsignedChunkReader struct {
 	stash            []byte
 	chunkCounter     int
 	offset           int
+	// bytes of the current chunk not read yet
+	chunkLeft int64
 	//TODO: Add debug logging for the reader
 	debug bool
 }
@@ -77,16 +82,27 @@ func (ucr *UnsignedChunkReader) Read(p []byte) (int, error) {
 	}
 
 	for {
-		// Read the chunk size
-		chunkSize, err := ucr.extractChunkSize()
-		if err != nil {
-			return 0, err
-		}
+		if ucr.chunkLeft == 0 {
+			// Read the chunk size
+			size, err := ucr.extractChunkSize()
+			if err != nil {
+				return 0, err
+			}
 
-		if chunkSize == 0 {
-			// Stop reading parsing payloads as 0 sized chunk is reached
-			break
+			if size == 0 {
+				// Stop reading parsing payloads as 0 sized chunk is reached
+				break
+			}
+			ucr.chunkLeft = size
 		}
+		// The chunk size comes from the wire (before the request is
+		// authenticated): never size an allocation by it, read large
+		// chunks piece by piece.
+		chunkSize := ucr.chunkLeft
+		if chunkSize > maxChunkPieceSize {
+			chunkSize = maxChunkPieceSize
+		}
+		var err error
 		rdr := io.TeeReader(ucr.reader, ucr.hasher)
 		payload := make([]byte, chunkSize)
 		// Read and cache the payload
@@ -99,15 +115,18 @@ func (ucr *UnsignedChunkReader) Read(p []byte) (int, error) {
 			return 0, err
 		}
 
-		// Skip the trailing "\r\n"
-		if err := ucr.readAndSkip('\r', '\n'); err != nil {
-			return 0, err
+		ucr.chunkLeft -= chunkSize
+		if ucr.chunkLeft == 0 {
+			// Skip the trailing "\r\n"
+			if err := ucr.readAndSkip('\r', '\n'); err != nil {
+				return 0, err
+			}
+			ucr.chunkCounter++
 		}
 
 		// Copy the payload into the io.Reader buffer
 		n := copy(p[ucr.offset:], payload)
 		ucr.offset += n
-		ucr.chunkCounter++
 
 		if int64(n) < chunkSize {
 			// stash the remaining data
@@ -169,6 +188,9 @@ func (ucr *UnsignedChunkReader) extractChunkSize() (int64, error) {
 
 	chunkSize, err := strconv.ParseInt(line, 16, 64)
 	if err != nil {
+		return 0, errMalformedEncoding
+	}
+	if chunkSize < 0 {
 		return 0, errMalformedEncoding
 	}
 
